@@ -33,7 +33,7 @@ _P["rule"] = (
     "distance and as arc: 0, ±1e-9, special values, up to ±10 circuits, within half a circuit, and σ12 at k·180° + {0, ±1e-9, ±1e-6, 1e-3} (in "
     "distance mode: the distance that GeodesicExact returns for such an arc, and its neighbours). Every case is solved by Geodesic, "
     "GeodesicExact and Geodesic(a,f,true) through GenDirect(ALL) and (ALL|LONG_UNROLL), Line / the line constructor / GenDirectLine / "
-    "DirectLine resp. ArcDirectLine + GenPosition with and without LONG_UNROLL, the third point of GenDirectLine (GenDistance, Arc, Distance), "
+    "DirectLine resp. ArcDirectLine + GenPosition with and without LONG_UNROLL, the third point of GenDirectLine (GenDistance, Arc, Distance), GenSetDistance on an existing line with either member of the pair, the Latitude/Longitude/Azimuth getters of every line form (the longitude as given), "
     "the other member of the distance/arc pair (Direct on the s12 returned by ArcDirect and vice versa), InverseLine through the end point "
     "(b/a ∈ [1/4, 4], |a12| ≤ 175°); every fourth case in addition through all 6 Direct / 7 ArcDirect overloads, the 6 Position / 7 ArcPosition "
     "overloads of Line and DirectLine/ArcDirectLine, GenDirect and GenPosition with each single-output mask, and lines constructed with a single "
